@@ -331,7 +331,7 @@ class Algebra:
         elif a.positive:
             a.fp = 0.6 + 1.7 * h + (float(gt) if gt else 0.0)
         else:
-            a.fp = (0.5 + 1.9 * h) * (1.0 if (hash_str(name + "#") % 2) else -1.0)
+            a.fp = (0.5 + 1.9 * h) * (1.0 if hash_bit(name + "#") else -1.0)
         return self.atom_rf(a)
 
     def atom_rf(self, a, e=1):
@@ -374,7 +374,7 @@ class Algebra:
         a = self._new_atom("%s(%s)" % (fname, ",".join(self.show(x, 40) if isinstance(x, RF) else repr(x) for x in args)), "opaque", positive=positive)
         a.args = args
         a.fp = 0.7 + (hash_str(repr(key)) % 7919) / 7919.0
-        if not positive and hash_str(repr(key) + "s") % 2:
+        if not positive and hash_bit(repr(key) + "s"):
             a.fp = -a.fp
         self.opaques[key] = a
         self.stats["opaque"] += 1
@@ -1505,7 +1505,9 @@ class Algebra:
             if m:
                 return fn(m, k, (hash_str("%s|%d" % (at.name, k)) % 100003) / 100003.0)
         h = (hash_str("%s|%d" % (at.name, k)) % 100003) / 100003.0
-        h2 = hash_str("%s#%d" % (at.name, k)) % 2
+        # sign bit: a HIGH bit of the hash (the lowest bit of FNV-1a is the parity of the characters' low bits,
+        # which made the signs of `uL` and `uR` equal at every point: opposite-sign pairs were never sampled)
+        h2 = hash_bit("%s#%d" % (at.name, k))
         if k >= WIDE_K and not at.unit:
             # escalation stage of the witness search: log-uniform magnitudes over three decades,
             # caller's ranges ignored (marginal / strongly sheared / strongly stratified states)
@@ -1826,6 +1828,13 @@ def _iroot(n, d):
         if c >= 0 and c ** d == n:
             return c
     return None
+
+
+def hash_bit(s):
+    """one well-mixed bit of a string (FNV's bits are linear in the characters: the signs of similarly named
+    atoms came out equal -- or opposite -- at EVERY point)"""
+    import hashlib
+    return hashlib.md5(s.encode()).digest()[0] & 1
 
 
 def hash_str(s):
